@@ -2677,7 +2677,15 @@ func ruleParserAlternativesTestedBeforeUse(c *core.Ctx) {
 					visit(x.Body.List, conds, left)
 				case *ast.SwitchStmt:
 					for _, cl := range x.Body.List {
-						visit(cl.(*ast.CaseClause).Body, conds, left)
+						cc := cl.(*ast.CaseClause)
+						cs := conds
+						if x.Tag == nil { // `switch { case x.F != nil: … }` is an if-chain
+							for _, e := range cc.List {
+								check(e, conds, left)
+								cs = append(append([]string{}, cs...), types.ExprString(e))
+							}
+						}
+						visit(cc.Body, cs, left)
 					}
 				case *ast.TypeSwitchStmt:
 					for _, cl := range x.Body.List {
